@@ -170,6 +170,11 @@ class Tables:
 # ----------------------------------------------------------------------------- the property, judged on the implementation (T2)
 def arg_value(sc, T, state, arg, empty_ok=False):
     """('nb', json) | ('bad', why) | ('unsure', why): what a notebook argument names, by os.path + nbformat only"""
+    if isinstance(arg, dict) and ('stream_text' in arg or 'stream_file' in arg):
+        # an open stream fixed at start-up: its content is what it held then
+        spec = {'t': arg['stream_text']} if 'stream_text' in arg else sc.states[0].get(arg['stream_file'], {'t': ''})
+        rd = T.read_of_spec(spec)
+        return ('nb', rd[1]) if rd[0] == 'ok' else ('bad', 'stream-not-a-notebook')
     if not isinstance(arg, str): return ('bad', 'not-a-string')
     if mp(arg) == '/dev/null': return ('nb', T.newnb)
     key = sc.key_of(state, arg)
@@ -372,6 +377,7 @@ def case_term(sc, T):
     """Coq record for one played scenario; None if the scenario cannot be expressed."""
     P = sc.params
     mode = 'Plain'
+    if any(not isinstance(a, str) for a in (P.get('difftool_args') or {}).values()): return None     # stream arguments: implementation side only
     if 'difftool_args' in P: mode = '(DiffTool %s %s)' % (cstr(mp(P['difftool_args']['base'])), cstr(mp(P['difftool_args']['remote'])))
     if 'mergetool_args' in P: mode = '(MergeTool %s %s %s)' % tuple(cstr(mp(P['mergetool_args'][k])) for k in ('base', 'local', 'remote'))
     fn = P.get('outputfilename')
@@ -585,6 +591,7 @@ def prepare_tables(T, scns):
     """everything nbformat / the library must be asked about, for the played scenarios"""
     texts = ['']
     for sc in scns:
+        texts += [a['stream_text'] for a in (sc.params.get('difftool_args') or {}).values() if isinstance(a, dict) and 'stream_text' in a]
         for st in sc.states:
             texts += [spec['t'] for spec in st.values() if 't' in spec]
     T.need_texts(texts)
